@@ -546,6 +546,10 @@ pub struct TargetInner {
     /// The same data kept the way many real targets keep it: a hash set of
     /// the library's own `Payload` values, relying on their `Eq`/`Hash`.
     pub shadow: std::collections::HashSet<Payload>,
+    /// First observed breach of the Eq/Hash law: an element equal (by the
+    /// library's `Eq`) to the looked-up item exists but the hash lookup
+    /// misses it, or the other way round.
+    pub identity_law_broken: Option<String>,
 }
 
 impl TargetInner {
@@ -641,6 +645,16 @@ impl PayloadTarget for ModelTarget {
                     }
                 }
                 _ => {
+                    let by_eq = t.shadow.iter().any(|x| x == p);
+                    let by_hash = t.shadow.contains(p);
+                    if by_eq != by_hash && t.identity_law_broken.is_none() {
+                        t.identity_law_broken = Some(format!(
+                            "{:?}: an equal element {} in the set by Eq, but the hash lookup says {}",
+                            from_payload(p).0,
+                            if by_eq { "is" } else { "is not" },
+                            if by_hash { "present" } else { "absent" }
+                        ));
+                    }
                     if *announce {
                         t.shadow.replace(p.clone());
                     } else {
